@@ -6,22 +6,22 @@
 (*                                                                         *)
 (*   a A _ 7   letter / upper letter / underscore / digit  (word chars)    *)
 (*   dol       "$"  (identifier char that needs an identity escape)        *)
-(*   sp nl vt  space, line feed, vertical tab                              *)
+(*   sp nl cr vt  space, line feed, carriage return, vertical tab           *)
 (*   ls bom    U+2028 (line terminator, ES whitespace), U+FEFF (ES ws)     *)
 (*   ee as hi  U+00E9, U+1F600, U+2070E (an astral character above U+1FFFF)  *)
-(*   nul bs    U+0000, U+0008                                              *)
+(*   nul bs dle  U+0000, U+0008, U+0010 (\cP: the two-hex-digit boundary)   *)
 (*                                                                         *)
 (* M(ast, s, i) = set of end positions of matches of ast starting at i     *)
 (* (greedy/lazy are the same for the boolean, unanchored Search).          *)
 (***************************************************************************)
 EXTENDS Naturals, Sequences, FiniteSets, TLC, SequencesExt
 
-Sigma == {"a", "A", "_", "7", "dol", "sp", "nl", "vt", "ls", "bom", "ee", "as", "hi", "nul", "bs"}
+Sigma == {"a", "A", "_", "7", "dol", "sp", "nl", "cr", "vt", "ls", "bom", "ee", "as", "hi", "nul", "bs", "dle"}
 Word == {"a", "A", "_", "7"}
 Digit == {"7"}
 \* ECMA-262 WhiteSpace + LineTerminator
-Space == {"sp", "nl", "vt", "ls", "bom"}
-LineTerm == {"nl", "ls"}
+Space == {"sp", "nl", "cr", "vt", "ls", "bom"}
+LineTerm == {"nl", "cr", "ls"}
 Lower == {"a"}          \* a-z
 Upper == {"A"}          \* A-Z
 
@@ -33,7 +33,8 @@ Escapes == {
   [t |-> "esc", r |-> "\\ufeff", c |-> "bom"], [t |-> "esc", r |-> "\\xe9", c |-> "ee"], [t |-> "esc", r |-> "\\xE9", c |-> "ee"], [t |-> "esc", r |-> "\\u00e9", c |-> "ee"],
   [t |-> "esc", r |-> "\\cJ", c |-> "nl"], [t |-> "esc", r |-> "\\cj", c |-> "nl"], [t |-> "esc", r |-> "\\cK", c |-> "vt"], [t |-> "esc", r |-> "\\cH", c |-> "bs"],
   [t |-> "esc", r |-> "\\0", c |-> "nul"], [t |-> "esc", r |-> "\\x00", c |-> "nul"], [t |-> "esc", r |-> "\\$", c |-> "dol"], [t |-> "esc", r |-> "\\x24", c |-> "dol"],
-  [t |-> "esc", r |-> "\\x20", c |-> "sp"], [t |-> "esc", r |-> "\\u0020", c |-> "sp"], [t |-> "esc", r |-> "\\x08", c |-> "bs"], [t |-> "esc", r |-> "\\u{1F600}", c |-> "as"] }
+  [t |-> "esc", r |-> "\\r", c |-> "cr"], [t |-> "esc", r |-> "\\cM", c |-> "cr"], [t |-> "esc", r |-> "\\cP", c |-> "dle"], [t |-> "esc", r |-> "\\cp", c |-> "dle"],
+  [t |-> "esc", r |-> "\\x10", c |-> "dle"], [t |-> "esc", r |-> "\\u0010", c |-> "dle"], [t |-> "esc", r |-> "\\x20", c |-> "sp"], [t |-> "esc", r |-> "\\u0020", c |-> "sp"], [t |-> "esc", r |-> "\\x08", c |-> "bs"], [t |-> "esc", r |-> "\\u{1F600}", c |-> "as"] }
 Lits == {[t |-> "lit", c |-> c] : c \in {"a", "A", "7", "sp", "ee", "as", "_"}}
 ClassAtoms == {[t |-> x] : x \in {"dot", "d", "D", "w", "W", "s", "S", "empty", "any"}}
 Anchors == {[t |-> x] : x \in {"bol", "eol", "wb", "nwb"}}
